@@ -14,6 +14,23 @@ CLAIMED = {
             "current source by running both on the same histories after every operation.",
             "Trusted: Lean kernel, axioms propext/Classical.choice/Quot.sound, harness+orchestrator; floating "
             "point rounding is modelled not verified (theorems over exact complex numbers).", "DESIGN.md §4 C01"),
+    "C02": ("Lean 4 theorems about the model of QasmSimulator::measure with the draw explicit (outcome iff draw below the "
+            "Born weight; post-state = normalised projection; re-read and correlated qubits agree) + bit-exact "
+            "differential correspondence at forced/adversarial draws",
+            "Proof on the model over exact complex amplitudes for every n, q, state and draw in [0,1); model tied to the "
+            "source by differential runs after every operation.",
+            "Trusted: Lean kernel, propext/Classical.choice/Quot.sound, harness+orchestrator; RNG uniformity assumed (the draw "
+            "is an input); IEEE rounding modelled not verified. The evaluator-side agreement (returned bit = stored value = tracked "
+            "outcome) is checked through the evaluator correspondence (C05/C17 harness).", "DESIGN.md §4 C02"),
+    "C03": ("Lean 4 invariant proof by induction over arbitrary operation histories (size = 2^n, unit norm; allocation = psi ⊗ |0>) "
+            "+ differential correspondence + norm/size oracle on the real simulator after every operation",
+            "Proof for every finite history on the model; drift of the real floating-point state is monitored, not proved.",
+            "Trusted: as C01. The qubit-handle half is decided on the evaluator's qubit-book machine (see level_note in DESIGN.md §4 C03).",
+            "DESIGN.md §4 C03"),
+    "C04": ("Lean 4 theorems about the model of QasmSimulator::reset (target amplitudes zero, unit norm, reduced state of the other "
+            "qubits preserved on average over the reset's own branch) + differential correspondence with both branches forced",
+            "Proof over exact amplitudes for every n, target and (entangled) state; tied to the source by differential runs.",
+            "Trusted: as C02. The pinned code post-selected (genuine defect, repaired by fix: fff04b3).", "DESIGN.md §4 C04"),
 }
 PENDING_REASON = "check not built yet in this revision of /verif (planned: Lean model + correspondence, see DESIGN.md §4)"
 
